@@ -129,7 +129,7 @@ func runC17(ctx *Ctx) *Report {
 	forests := forestsUpTo(n, []string{"a", "b.go"})
 	for i, f := range forests {
 		doc := spell(f, coveringSpellings()[i%len(coveringSpellings())])
-		c := wasmCase{Kind: "wasm", Mode: modes[i%4], Fmt: allFormats()[i%5], Exts: extLists[i%len(extLists)], Doc: hx(doc), Text: docText(doc)}
+		c := wasmCase{Kind: "wasm", Mode: modes[i%4], Fmt: allFormats()[i%len(allFormats())], Exts: extLists[i%len(extLists)], Doc: hx(doc), Text: docText(doc)}
 		cases = append(cases, c)
 	}
 	// malformed stream (same injections as C02) and hostile names
@@ -174,7 +174,7 @@ func runC17(ctx *Ctx) *Report {
 			continue
 		}
 		doc := spell(f, sp)
-		cases = append(cases, wasmCase{Kind: "wasm", Mode: modes[k%4], Fmt: allFormats()[k%5], Exts: extLists[k%len(extLists)], Doc: hx(doc), Text: docText(doc)})
+		cases = append(cases, wasmCase{Kind: "wasm", Mode: modes[k%4], Fmt: allFormats()[k%len(allFormats())], Exts: extLists[k%len(extLists)], Doc: hx(doc), Text: docText(doc)})
 	}
 	// a few worker triples
 	workers := ctx.Workers / 2
